@@ -21,6 +21,7 @@ fn gen_example(rng: &mut Rng, units: bool) -> Value {
     json!({"url": url, "method": match rng.below(5) { 0 | 1 => json!("POST"), 2 => json!("GET"), _ => Value::Null },
            "headers": if rng.chance(1, 4) { json!([{"name": "X-A", "value": "1"}]) } else { Value::Null },
            "ip_address": Value::Null,
+           "datetime": match rng.below(4) { 0 => json!("2024-03-04T10:00:00Z"), 1 => json!("2024-04-07T10:00:00Z"), _ => Value::Null },
            "response_status_code": match rng.below(5) { 0 => json!(404), 1 => json!(200), 2 => json!(301), _ => Value::Null },
            "must_match": rng.chance(2, 3),
            "unit_ids_applied": if units || rng.chance(3, 4) { let k = rng.below(3); let mut v: Vec<&str> = Vec::new(); for _ in 0..k { let u = *rng.pick(UNITS); if !v.contains(&u) { v.push(u); } } json!(v) } else { Value::Null }})
@@ -43,7 +44,10 @@ fn gen_rule(rng: &mut Rng, id: &str, version: usize) -> Value {
     json!({"id": id, "rank": rng.below(3), "status_code": status, "target": target,
            "source": {"path": path, "host": match rng.below(5) { 0 => json!("example.org"), _ => Value::Null },
                       "methods": match rng.below(6) { 0 => json!(["GET"]), 1 => json!(["POST"]), _ => Value::Null },
-                      "response_status_codes": codes, "exclude_response_status_codes": if rng.chance(1, 6) { json!(true) } else { Value::Null }},
+                      "response_status_codes": codes, "exclude_response_status_codes": if rng.chance(1, 6) { json!(true) } else { Value::Null },
+                      // time-restricted rules (the examples below carry a date inside / outside the window)
+                      "weekdays": match rng.below(8) { 0 => json!(["Monday", "Tuesday"]), 1 => json!(["Sunday"]), _ => Value::Null },
+                      "datetime": if rng.chance(1, 10) { json!([["2024-03-01T00:00:00Z", "2024-03-31T00:00:00Z"]]) } else { Value::Null }},
            "header_filters": hf, "body_filters": bf,
            "log_override": match rng.below(5) { 0 => json!(true), 1 => json!(false), _ => Value::Null },
            "reset": if rng.chance(1, 8) { json!(true) } else { Value::Null }, "stop": if rng.chance(1, 8) { json!(true) } else { Value::Null },
